@@ -132,11 +132,16 @@ impl AsyncFileSystem for AsyncOverlayFS {
                 VfsFileType::Directory => Err(VfsErrorKind::DirectoryExists.into()),
             };
         }
-        self.write_path(path)?.create_dir().await?;
+        // Drop the removal marker before the directory appears in the write layer: otherwise a concurrent
+        // create_dir_all finds the new directory still marked as removed. Another task may drop it first.
         let whiteout_path = self.whiteout_path(path)?;
         if whiteout_path.exists().await? {
-            whiteout_path.remove_file().await?;
+            match whiteout_path.remove_file().await {
+                Err(err) if !matches!(err.kind(), VfsErrorKind::FileNotFound) => return Err(err),
+                _ => {}
+            }
         }
+        self.write_path(path)?.create_dir().await?;
         Ok(())
     }
 
